@@ -237,7 +237,9 @@ fn run_one(rng: &mut Rng, out: &mut Out) {
         out.violation(&sig, json!({"detail": d, "history": witness(&log, &c, &s)}));
         return;
     }
-    let style = rng.below(5);
+    let style = rng.below(6);
+    // style 5: a reader with a fixed buffer size, among them exactly one packet's worth
+    let fixed_piece = *rng.pick(&[1536usize, 1536, 1537, 1535, 768, 3072, 1024, 512, 3073]);
     let mut splits_near_boundaries = 0u64;
     let mut steps = 0;
     loop {
@@ -278,6 +280,7 @@ fn run_one(rng: &mut Rng, out: &mut Out) {
             0 => 1,
             1 => avail,
             2 => rng.usize(1, 4000),
+            5 => fixed_piece,
             3 => {
                 let t = to_boundary(dst.received);
                 if !t.is_empty() && rng.chance(3, 4) {
@@ -378,7 +381,7 @@ impl Check for C05 {
         "C05"
     }
     fn plan(&self, tier: Tier) -> Plan {
-        Plan::new(tier.pick(120_000, 12_000_000), tier.pick(30.0, 360.0))
+        Plan::new(tier.pick(500_000, 12_000_000), tier.pick(30.0, 360.0))
     }
     fn selftest(&self) -> Result<(), String> {
         sha::selftest()
@@ -387,7 +390,7 @@ impl Check for C05 {
         run_one(rng, out);
     }
     fn rule(&self) -> String {
-        "one handshake per case: library client <-> library server (3/5), library client <-> independent original-handshake server (1/5), independent original-handshake client <-> library server (1/5); the original-handshake peer echoes packet 1 verbatim or fills in time2 with {0, 1, 0x12345678, 0xFFFFFFFF} as RTMP spec 5.2.4 describes (half each); four opening orders (client generates; both generate; client opens via process_bytes(&[]); server pre-generates via process_bytes(&[])); each side appends 0-4096 tagged trailing bytes right after its third packet; scheduler styles: byte-by-byte, everything available, random <= 4000, targeted (pieces ending exactly at, one before, one after stream offsets 1, 1537, 3073), mixed incl. empty deliveries; half the runs with the library RNG, half with the seeded fill hook. distinct = (peer kind, opening, scheduler style, trailing-length classes, number of deliveries ending within 1 byte of a packet boundary).".to_string()
+        "one handshake per case: library client <-> library server (3/5), library client <-> independent original-handshake server (1/5), independent original-handshake client <-> library server (1/5); the original-handshake peer echoes packet 1 verbatim or fills in time2 with {0, 1, 0x12345678, 0xFFFFFFFF} as RTMP spec 5.2.4 describes (half each); four opening orders (client generates; both generate; client opens via process_bytes(&[]); server pre-generates via process_bytes(&[])); each side appends 0-4096 tagged trailing bytes right after its third packet; scheduler styles: byte-by-byte, everything available, random <= 4000, targeted (pieces ending exactly at, one before, one after stream offsets 1, 1537, 3073), mixed incl. empty deliveries, fixed read size from {512, 768, 1024, 1535, 1536, 1537, 3072, 3073}; half the runs with the library RNG, half with the seeded fill hook. distinct = (peer kind, opening, scheduler style, trailing-length classes, number of deliveries ending within 1 byte of a packet boundary).".to_string()
     }
     fn assumptions(&self) -> Vec<String> {
         vec![
@@ -406,7 +409,7 @@ impl Check for C05 {
         for i in 0..4 {
             v.push(format!("opening_{}", i));
         }
-        for i in 0..5 {
+        for i in 0..6 {
             v.push(format!("scheduler_style_{}", i));
         }
         v
